@@ -418,44 +418,52 @@ func VerifC23History() {
 	verifReach("end")
 }
 
+// c23streamCfg: (item limit, sponsor limit, stream batch size) configurations of the streaming harness.
+var c23streamCfg = [6][3]int{{2, 2, 1}, {2, 2, 2}, {1, 1, 1}, {3, 2, 2}, {2, 1, 1}, {3, 3, 1}}
+
 // VerifC23Stream: `setup` items are added, a stream is started, then every history of stream / prepare / finish (and a
-// new start) interleaved with add / remove / expire / pop from other callers, following the builder's protocol.
+// new start) interleaved with add / expire (quick) and remove / pop (thorough) from other callers, following the
+// builder's protocol; finally the stream is finished and everything is popped.
 func VerifC23Stream() {
 	maxOps := verifParam("maxOps", 3, 5)
 	nitems := verifParam("items", 3, 4)
-	c := c23new(nitems, verifParam("limitConfigs", 4, 5))
-	batch := 1 + verifChoose("streamBatch", 2)
-	setup := 1 + verifChoose("setup", nitems)
+	nops := verifParam("streamOps", 5, 7)
+	c := &c23model{ctx: context.Background(), nitems: nitems}
+	cfg := c23streamCfg[verifChoose("config", verifParam("configs", 5, 6))]
+	c.maxSize, c.maxSp = cfg[0], cfg[1]
+	batch := cfg[2]
+	c.m = New[*c23Item](trace.Noop, c.maxSize, c.maxSp)
+	setup := verifParam("setupMin", 2, 1) + verifChoose("setup", verifParam("setupChoices", 1, 3))
 	for i := 0; i < setup; i++ {
 		c.used = i + 1
 		c.opAdd(i)
 		c.check()
 	}
 	c.opStart()
-	n := 1 + verifChoose("n", maxOps)
+	n := maxOps
 	for step := 0; step < n; step++ {
-		switch verifChoose("op", 7) {
+		switch verifChoose("op", nops) {
 		case 0:
 			c.opAdd(c.pick("additem"))
 		case 1:
-			c.opRemove(c.pick("rmitem"))
-		case 2:
 			c.opSetMin()
-		case 3:
-			c.opPop()
-		case 4:
+		case 2:
 			if c.streaming {
 				c.opStream(batch)
 			} else {
 				c.opStart()
 			}
-		case 5:
+		case 3:
 			verifAssume(c.streaming)
 			verifAssume(!c.fetched) // at most one outstanding PrepareStream
 			c.opPrepare(batch)
-		case 6:
+		case 4:
 			verifAssume(c.streaming)
 			c.opFinish()
+		case 5:
+			c.opRemove(c.pick("rmitem"))
+		case 6:
+			c.opPop()
 		}
 		c.check()
 	}
